@@ -222,6 +222,10 @@ pub struct Outcome {
     pub shape_digest: u64,
     pub counters: BTreeMap<String, u64>,
     pub sim_ns: i64,
+    /// keys under which this (clean) run is worth keeping in the regression
+    /// corpus: rare conditions it reached (e.g. a draw ending in a blank, a
+    /// particular set of error codes)
+    pub harvest: Vec<String>,
 }
 
 impl Outcome {
